@@ -12,7 +12,9 @@
 package main
 
 import (
+	"encoding/json"
 	"fmt"
+	"os"
 	"runtime"
 	"strings"
 	"sync"
@@ -25,9 +27,18 @@ import (
 )
 
 func main() {
+	if v := os.Getenv(childEnv); v != "" {
+		var sc crashScenario
+		if err := json.Unmarshal([]byte(v), &sc); err != nil {
+			fmt.Println("CHILD-SKIP bad scenario")
+			os.Exit(0)
+		}
+		os.Exit(crashChild(sc))
+	}
 	harness.Main("C10", "exploration",
 		harness.Layer{Name: "unary", Run: layerUnary},
 		harness.Layer{Name: "stream", Run: layerStream},
+		harness.Layer{Name: "crash", Run: layerCrash},
 	)
 }
 
@@ -91,7 +102,7 @@ func layerUnary(h *harness.H) {
 	h.AddRule("unary: per case one stored layout (1-6 writer sessions in shuffled order over 5 channels idx/i64/f32/str/u8, file cap in {1,40,64,200 B,1 GB}, irregular spacing, 0-3 DeleteTimeRange, gc, reopen) x every channel x (random mixed sequences of 8-30 commands SeekFirst/SeekLast/SeekLE/SeekGE/Next(span)/Prev(span)/Next(auto)/Prev(auto)/SetBounds with random bounds and auto chunk in {1,2,3,7,20,1e5} + forward/backward traversals with spans {1,3,random,whole,max} and auto chunks); distinct+non-trivial = distinct (layout log, channel, command trace) whose steps returned stored samples at least once")
 	h.Assume("commands are issued as the API documents: a seek first, steps only after a seek that found a domain, a seek after every SetBounds")
 	h.Assume("layouts whose raw stored bytes (read through domain.DB, not through the iterator) differ from the reference model after a DeleteTimeRange are not used (delete exactness is C04); they are counted as layouts_unusable")
-	seqPerChan := h.N(6, 6)
+	seqPerChan := h.N(6, 12)
 	parallel(h, "unary", h.N(300, 12000), func(c int) {
 		r := h.Rand("unary", c)
 		h.Eval()
@@ -99,7 +110,15 @@ func layerUnary(h *harness.H) {
 		if reason != "" {
 			h.Count("layouts_unusable", 1)
 			h.Seen("layouts_unusable_reasons", reason)
-			if reason != "stored-bytes-differ-from-model" && reason != "model-sample-outside-domains" {
+			if reason == "domain-enumeration-inconsistent" {
+				h.Violation("unary", c, "c10:domain-iterator:forward-and-backward-enumeration-differ",
+					"SeekFirst;Next* and SeekLast;Prev* over a channel's domain.DB list different domains", map[string]any{"layout": l.log})
+				return
+			}
+			if reason == "delete-failed" && l != nil {
+				h.Seen("layout_delete_errors", errShape(l.delErr))
+			}
+			if reason != "stored-bytes-differ-from-model" && reason != "model-sample-outside-domains" && reason != "delete-failed" && reason != "data-domain-misaligned-with-index" && reason != "data-domain-not-covered-by-index" && reason != "stored-domains-out-of-order" {
 				h.Inconclusive("layout:" + reason)
 			}
 			return
@@ -115,13 +134,13 @@ func layerUnary(h *harness.H) {
 				continue
 			}
 			for s := 0; s < seqPerChan; s++ {
-				w := walkRandom(h, "unary", c, l, k, r)
+				// every second sequence uses fixed spans only, so that the fixed-span logic is
+				// explored in depth whatever the auto-span steps do
+				// and every third one seeks before each step (no cursor history)
+				w := walkRandom(h, "unary", c, l, k, r, s%2 == 1, s%3 == 2)
 				h.Count("sequences", 1)
 				if !w.dead && w.nonTrivial > 0 {
 					h.Distinct(lkey + "|" + chName(k) + "|" + strings.Join(w.trace, ";"))
-				}
-				if w.dead {
-					return
 				}
 			}
 			// traversals over finite bounds
@@ -137,10 +156,7 @@ func layerUnary(h *harness.H) {
 			for _, sp := range spans {
 				for _, fwd := range []bool{true, false} {
 					w := traverse(h, "unary", c, l, k, fwd, sp, 0, a, b)
-					if w.dead {
-						return
-					}
-					if w.nonTrivial > 0 {
+					if !w.dead && w.nonTrivial > 0 {
 						h.Distinct(lkey + "|" + chName(k) + fmt.Sprintf("|trav%v/%d/%d-%d", fwd, sp, a, b))
 					}
 				}
@@ -148,10 +164,7 @@ func layerUnary(h *harness.H) {
 			for _, ck := range []int64{1, 2, 3, 7, 100000} {
 				for _, fwd := range []bool{true, false} {
 					w := traverse(h, "unary", c, l, k, fwd, -1, ck, a, b)
-					if w.dead {
-						return
-					}
-					if w.nonTrivial > 0 {
+					if !w.dead && w.nonTrivial > 0 {
 						h.Distinct(lkey + "|" + chName(k) + fmt.Sprintf("|auto%v/%d/%d-%d", fwd, ck, a, b))
 					}
 				}
@@ -186,4 +199,20 @@ func pickChannels(r *prng.R) []cesium.ChannelKey {
 	ks := append([]cesium.ChannelKey(nil), allKeys...)
 	prng.Shuffle(r, ks)
 	return ks[:r.Range(2, len(ks))]
+}
+
+// errShape strips numbers and timestamps from an error text so that it can be counted.
+func errShape(s string) string {
+	var sb strings.Builder
+	for _, r := range s {
+		if r >= '0' && r <= '9' {
+			continue
+		}
+		sb.WriteRune(r)
+	}
+	out := sb.String()
+	if len(out) > 160 {
+		out = out[:160]
+	}
+	return out
 }
